@@ -7,6 +7,7 @@ mod graph;
 mod phases;
 mod runs;
 mod scenario;
+mod threads;
 mod world;
 
 use std::{
